@@ -179,6 +179,8 @@ func genC04(ev *Ev) func(t *rapid.T) model.Case {
 				}
 				si := liveIdx[rapid.IntRange(0, len(liveIdx)-1).Draw(t, "si")]
 				nf := genUP4DLFAR(t, 2)
+				// the Destination Interface IE may be left out when it does not change (downlink stays downlink)
+				nf.OmitDstIf = nf.HasFwd && rapid.IntRange(0, 3).Draw(t, "omitdstif") == 0
 				gs[si].dlFAR = nf
 				ops = append(ops, model.Op{Kind: "mod", Peer: gs[si].peer, Seq: seq, Sess: si, UpdFARs: []model.FAR{nf}, Note: "updfar"})
 			case "updpdr-key":
